@@ -29,7 +29,7 @@ ASSUMPTIONS = [
     "which except clause a given upstream behaviour ends in (Srv.Fault.cls) is the client's classification (C13); here it is checked against the real client by the scripted upstream, not proved",
     "a TCP FIN in the middle of a 2x body is indistinguishable from the end of the body (Gemini has no length field): the bytes received so far are the response",
     "'malformed' is judged by the oracle as: no CRLF, header longer than 2+1+1024 bytes, status not two ASCII digits in 10-69, meta not UTF-8 or containing a bare CR/LF, missing separator for a status below 40; a 4x-6x header without the separator may be relayed (with status/meta/body unchanged) or answered with 43",
-    "timing: a stalled upstream must be answered within 2 x location timeout + 3 s of wall clock (shortened timeout 0.25-0.4 s)",
+    "timing: every scripted upstream accepts the TCP connection at once, so the fetch — and with it the answer — is due one location timeout after the request; the oracle allows 0.45 s of scheduling margin, repeats a late case twice and reports it only when all three attempts are late; no answer within timeout + 2.5 s is a hang",
 ]
 LEVEL_TEXT = "partial"
 LEVEL_NOTE = ("proved over the models: the server side writes exactly the bytes of a well-formed upstream response (any status, media type, charset label; body as bytes), "
@@ -72,6 +72,40 @@ def body_variants(rng):
 
 def send(b: bytes):
     return ["send", b.hex()]
+
+
+MARGIN = 0.45   # scheduling allowance on top of the location timeout, seconds of wall clock
+WIDE = ["é", "ñ", "日", "語", "\U0001f600", "ß", "Ω", "\u20ac"]
+
+
+def meta_of_bytes(ch: str, target: int, pad_first: bool) -> str:
+    """a meta of exactly `target` UTF-8 bytes made of the character `ch` and ASCII padding"""
+    w = len(ch.encode("utf-8"))
+    k, r = divmod(target, w)
+    return ("a" * r + ch * k) if pad_first else (ch * k + "a" * r)
+
+
+def trickle(data: bytes, gap: float, step: int = 1):
+    acts = []
+    for i in range(0, len(data), step):
+        acts.append(send(data[i:i + step]))
+        acts.append(["sleep", gap])
+    return acts
+
+
+def timeline(actions):
+    """[(time, bytes sent at that time)], time the script ends, how it ends"""
+    t, out = 0.0, []
+    for a in actions:
+        if a[0] == "send":
+            out.append((t, bytes.fromhex(a[1])))
+        elif a[0] == "sendn":
+            out.append((t, bytes([a[1]]) * a[2]))
+        elif a[0] == "sleep":
+            t += a[1]
+        elif a[0] in ("close", "reset", "hold"):
+            return out, t, a[0]
+    return out, t, "close"
 
 
 def resp_actions(rng, header: bytes, body: bytes):
@@ -227,6 +261,37 @@ class Relay(Family):
         case("fault", [send(b"20 text/plain\r\nabc"), ["sleep", 0.05], ["reset"]], fault="reset")
         case("fault", [["reset"]], fault="reset")
         case("fault", [send(b"20 te"), ["sleep", 0.05], ["reset"]], fault="reset")
+        # multi-byte metas around the 1024-BYTE limit (fewer than 1024 characters), in one read and split
+        k = 0
+        for ch in ("é", "ñ", "日", "\U0001f600"):
+            for target in range(1020, 1032):
+                for pad_first in (False, True):
+                    st = (20, 31, 10, 51, 44, 62)[k % 6]
+                    hdr = f"{st} {meta_of_bytes(ch, target, pad_first)}\r\n".encode("utf-8")
+                    body = b"BODY" if st == 20 else b""
+                    if k % 3 == 0:
+                        cut = (len(hdr) - 3, 700, 1025, 4)[k % 4]
+                        case("resp", [send(hdr[:cut]), ["sleep", 0.01], send(hdr[cut:] + body), ["close"]])
+                    else:
+                        case("resp", [send(hdr + body), ["close"]])
+                    k += 1
+        for meta in ("ñ" * 700, "日" * 342, "日" * 341 + "a", "\U0001f600" * 257, "é" * 1024, "gemini://h/" + "é" * 507, "gemini://h/" + "é" * 506):
+            for st in (20, 31, 10):
+                case("resp", [send(f"{st} {meta}\r\n".encode("utf-8") + (b"B" if st == 20 else b"")), ["close"]])
+        # upstreams that stall AFTER having sent something, and upstreams that trickle: 43 is due one timeout after the request
+        T = 0.5
+        hdr = b"20 text/plain; charset=utf-8\r\n"
+        case("fault", [send(b"2"), ["hold"]], fault="stallHeader", timeout=T)
+        case("fault", [send(b"20 text/plain; char"), ["hold"]], fault="stallHeader", timeout=T)
+        case("fault", [send(hdr), ["hold"]], fault="stallBody", timeout=T)
+        case("fault", [send(hdr + b"some body"), ["hold"]], fault="stallBody", timeout=T)
+        case("fault", [send(b"20 te"), ["sleep", 0.3], send(b"xt/plain\r\nab"), ["hold"]], fault="stallBody", timeout=T)
+        case("fault", [send(hdr), ["sleep", 0.2], send(b"a"), ["sleep", 0.2], send(b"b"), ["hold"]], fault="stallBody", timeout=T)
+        case("timed", trickle(hdr, 0.15) + [send(b"late body"), ["close"]], timeout=T)
+        case("timed", [send(hdr)] + trickle(b"drip drip drip", 0.2) + [["close"]], timeout=T)
+        case("timed", [send(hdr)] + trickle(b"x" * 40, 0.1, 2) + [["hold"]], timeout=T)
+        case("timed", [send(b"31 gemini://127.0.0.1:$D/")] + trickle(b"aaaaaaaaaaaa", 0.25) + [send(b"\r\n"), ["close"]], timeout=T)
+        case("timed", [send(hdr)] + trickle(b"fast", 0.04) + [["close"]], timeout=T)      # finishes well inside the timeout: relayed
         # redirects are relayed, never followed
         for st, tgt in ((30, "gemini://127.0.0.1:$D/"), (31, "gemini://127.0.0.1:$D/x?y"), (30, "/relative"), (31, ""), (39, "gemini://127.0.0.1:$U/loop"), (30, "http://127.0.0.1:$D/")):
             case("redirect", [send(f"{st} {tgt}\r\n".encode()), ["close"]])
@@ -247,6 +312,30 @@ class Relay(Family):
             yield c
         for _ in range(max(0, n - cnt)):
             r = rng.random()
+            if r < 0.015:
+                # stall or trickle at a random stage, short location timeout
+                T = rng.choice([0.4, 0.5, 0.6])
+                data = f"{rng.choice([20, 20, 21])} {rng.choice(METAS_2X[:6])}\r\n".encode() + body_variants(rng) + b"0123456789"
+                cut = rng.randrange(0, len(data))
+                if rng.random() < 0.5:
+                    acts = ([send(data[:cut])] if cut else []) + ([["sleep", rng.choice([0.1, 0.25])], send(data[cut:cut + 1])] if rng.random() < 0.5 else []) + [["hold"]]
+                    yield {"kind": "fault", "fault": "stallBody" if b"\r\n" in data[:cut] else "stallHeader", "actions": acts, "timeout": T}
+                else:
+                    gap = rng.choice([0.12, 0.2, 0.3])
+                    yield {"kind": "timed", "actions": ([send(data[:cut])] if cut else []) + trickle(data[cut:cut + 30], gap) + [["close"]], "timeout": T}
+                continue
+            if r < 0.07:
+                # multi-byte meta around the byte limit
+                st = rng.choice([20, 31, 10, 51, 60])
+                meta = meta_of_bytes(rng.choice(WIDE), rng.randrange(1016, 1036), rng.random() < 0.5)
+                hdr = f"{st} {meta}\r\n".encode("utf-8")
+                body = body_variants(rng) if st == 20 else b""
+                if rng.random() < 0.5:
+                    cut = rng.randrange(1, len(hdr))
+                    yield {"kind": "resp", "actions": [send(hdr[:cut]), ["sleep", 0.01], send(hdr[cut:] + body), ["close"]], "timeout": 2.0}
+                else:
+                    yield {"kind": "resp", "actions": [send(hdr + body), ["close"]], "timeout": 2.0}
+                continue
             if r < 0.62:
                 st = rng.choice([20, 20, 20, 21, 29, 10, 11, 30, 31, 40, 44, 51, 59, 60, 62, rng.randrange(10, 70)])
                 meta = rng.choice(METAS_2X) if 20 <= st <= 29 else rng.choice(["", "x", "some text; charset=latin-1", "é" * rng.randrange(0, 200), "gemini://h/", "a" * rng.choice([1022, 1023, 1024])])
@@ -289,6 +378,19 @@ class Relay(Family):
         return out
 
     def impl(self, case):
+        obs, down = self._run_once(case)
+        # a late answer is a verdict only when it is reproducible: scheduling noise does not repeat
+        tries = 0
+        while obs["late"] and obs["closed"] and tries < 2:   # (no answer at all within timeout + 2.5 s is not noise)
+            tries += 1
+            o2, d2 = self._run_once(case)
+            if not o2["late"]:
+                obs, down = o2, d2
+        self._last_down = down  # for the oracle (bodies too large for the observation)
+        self._last_case = case
+        return obs
+
+    def _run_once(self, case):
         from nauyaca.server.proxy import ProxyHandler
 
         U = self.U
@@ -313,12 +415,15 @@ class Relay(Family):
         handler = self._handlers.get(hkey)
         if handler is None:  # one handler object serves many requests, as in a running server
             handler = self._handlers[hkey] = ProxyHandler(hkey[0], prefix="/", timeout=case["timeout"])
-        wait = 2 * case["timeout"] + 3.5 if "leave_after" not in case else case["timeout"] + 0.3
+        # the fetch is bounded by the location timeout (the loopback connect is immediate): anything later is late,
+        # nothing at all within timeout + 2.5 s is a hang
+        wait = case["timeout"] + 2.5 if "leave_after" not in case else case["timeout"] + 0.3
 
         async def go():
             t0 = time.monotonic()
             r = await U.downstream_request(handler.handle, (REQ + "\r\n").encode(), wait, case.get("leave_after"))
             el = time.monotonic() - t0
+            self.up.release()
             await self.up.quiesce()
             await self.decoy.quiesce()
             return r, el
@@ -328,10 +433,8 @@ class Relay(Family):
         obs = {"down": digest(down), "nwrites": len(r["writes"]), "dropped": len(r["dropped"]), "closed": r["closed"], "left": r["client_left"],
                "up_conns": self.up.connections, "decoy_conns": self.decoy.connections,
                "up_lines": [bytes.fromhex(e["line"]).decode("utf-8", "replace").replace(str(self.up.port), "$U") for e in self.up.log],
-               "slow": el > 2 * case["timeout"] + 3.0}
-        self._last_down = down  # for the oracle (bodies too large for the observation)
-        self._last_case = case
-        return obs
+               "late": "leave_after" not in case and el > case["timeout"] + MARGIN}
+        return obs, down
 
     # ---- model -----------------------------------------------------------------------------------
     def _spec(self, case):
@@ -341,10 +444,22 @@ class Relay(Family):
             return ("fail", case["fault"])
         if case["kind"] == "leave":
             return ("leave",)
-        data, end = stream_of(acts)
-        if end == "hold":
-            return ("fail", "stallBody")
+        T = case["timeout"]
+        tl, t_end, end = timeline(acts)
+        if end == "hold" or t_end >= 1.4 * T:
+            # the response is not complete one timeout after the request: 43, unless a complete non-2x header
+            # arrived early (the client hangs up right after such a header)
+            early = classify_stream(b"".join(b for t, b in tl if t <= 0.6 * T))
+            if early[0] == "well" and not 20 <= early[1] <= 29:
+                return ("relay", early[1], early[2], b"")
+            mid = classify_stream(b"".join(b for t, b in tl if t < 1.4 * T))
+            if mid[0] in ("well", "grey") and not 20 <= mid[1] <= 29:
+                return ("relay-or-fail", mid[1], mid[2] if mid[0] == "well" else b"", b"")
+            return ("fail", "stallBody" if any(b"\r\n" in b for t, b in tl if t <= T) else "stallHeader")
+        data = b"".join(b for t, b in tl)
         cls = classify_stream(data)
+        if t_end > 0.6 * T and cls[0] == "well" and 20 <= cls[1] <= 29:
+            return ("relay-or-fail", cls[1], cls[2], cls[3])   # ends close to the deadline: either outcome
         if end == "reset":
             # a reset before the response is complete is a fault; after a complete non-2x header the client has already hung up
             if cls[0] == "well" and not 20 <= cls[1] <= 29:
@@ -403,7 +518,7 @@ class Relay(Family):
         if down is None:
             return None
         if not obs["closed"] or not down:
-            return ("no-response", f"downstream client got {len(down)} bytes and closed={obs['closed']} ({case['kind']}, {sp[:2]})")
+            return ("no-response", f"downstream client got {len(down)} bytes and closed={obs['closed']} within timeout {case['timeout']} s + 2.5 s ({case['kind']}, {sp[:2]})")
         pd = parse_down(down)
         if pd is None:
             return ("not-one-response", f"downstream bytes are not one well-formed response: {down[:80]!r}")
@@ -412,8 +527,8 @@ class Relay(Family):
             return ("redirect-followed", f"the proxy connected to the redirect target ({obs['decoy_conns']} connection(s)); downstream got {down[:60]!r}")
         if obs["up_conns"] > 1:
             return ("redirect-followed" if case["kind"] == "redirect" else "many-connections", f"{obs['up_conns']} upstream connections for one request")
-        if obs["slow"]:
-            return ("slow-fault", f"response took longer than 2 x timeout + 3 s (timeout {case['timeout']})")
+        if obs["late"]:
+            return ("late-response", f"the answer {down[:40]!r} arrived later than the location timeout {case['timeout']} s + {MARGIN} s after the request (three attempts)")
         if sp[0] == "fail":
             if st != 43:
                 if len(sp) > 2:
